@@ -218,7 +218,11 @@ func (g *sGen) atom(cx aCtx, lineStart, edge, first, last bool) sAtom {
 				for i := g.r.Intn(3); i > 0; i-- {
 					ws = append(ws, g.word())
 				}
-				for _, w := range ws {
+				for i, w := range ws {
+					// a label may span lines: the line ending normalises to one blank
+					if i > 0 && !cx.noBreak && cx.depth == 0 && g.r.Intn(4) == 0 {
+						a.Body = append(a.Body, sAtom{K: 's'})
+					}
 					a.Body = append(a.Body, sAtom{K: 'W', W: w})
 				}
 				a.Label = bytes.Join(ws, []byte(" "))
@@ -662,59 +666,130 @@ func runC02(c *Ctx) {
 	c.watchdog(120*time.Second, "spec-rewrite-hang", func() interface{} { return map[string]string{"markdown": curS} }, func() { specRewrites(c, mds[0], &curS) })
 }
 
-func stripQuote(l string) (string, bool) {
-	q := false
+// stripContainers removes every leading run of blanks, block-quote markers and list markers;
+// it returns what is left and the prefix that was removed.
+var containerRe = regexp.MustCompile(`^(?: +|\t|>|[-+*](?: +|\t)|[0-9]{1,9}[.)](?: +|\t))`)
+
+// prefix is what a continuation line of the same containers starts with: block-quote markers as
+// they are, list markers replaced by as many blanks ("" with ok=false when a tab is involved)
+func stripContainers(l string) (core, prefix string) {
+	core, prefix, _ = stripContainersOwn(l)
+	return
+}
+
+func stripContainersOwn(l string) (core, prefix string, own int) {
+	core = l
+	pending := "" // blanks after the last marker: the block's own indentation, not a container
 	for {
-		t := strings.TrimLeft(l, " ")
-		if len(l)-len(t) <= 3 && strings.HasPrefix(t, ">") {
-			l = strings.TrimPrefix(t[1:], " ")
-			q = true
+		m := containerRe.FindString(core)
+		if m == "" {
+			return core, prefix, len(pending)
+		}
+		if m[0] == ' ' {
+			pending += m
+			core = core[len(m):]
 			continue
 		}
-		return l, q
+		prefix += pending
+		pending = ""
+		if m[0] == '>' {
+			prefix += m
+		} else if strings.Contains(m, "\t") {
+			prefix += "\x00" // never matches: a block opened here is never seen closing
+		} else {
+			prefix += strings.Repeat(" ", len(m))
+		}
+		core = core[len(m):]
 	}
 }
 
-var fenceOpenRe = regexp.MustCompile("^( *(?:[-+*] +|[0-9]+[.)] +)?)(`{3,}|~{3,})")
+var fenceStartRe = regexp.MustCompile("^(`{3,}|~{3,})")
 
+// endsOpen: may the document end inside a block that a blank line does not close (a fenced code
+// block without its closing fence, an HTML block of kinds 1-5 without its end condition)?
+// Decided on the source text alone.  It errs on the side of "open": a block counts as closed
+// only when a closing line is certain to be read as such (same container prefix as the opening
+// line, or as many blanks; no line in between that leaves a block quote).
 func endsOpen(md string) bool {
 	lines := strings.Split(strings.TrimRight(md, "\n"), "\n")
-	fence, fenceCol, inQuote := "", 0, false
-	htmlEnd := (*regexp.Regexp)(nil)
-	for _, l := range lines {
-		body, q := stripQuote(l)
-		if (fence != "" || htmlEnd != nil) && inQuote && !q {
-			fence, htmlEnd = "", nil // the container ended, and with it the block
+	type open struct {
+		fence  string
+		prefix string
+		own    int // the opening line's own indentation after its container prefix
+		end    *regexp.Regexp
+	}
+	// an HTML block of kind 6 or 7 swallows the lines up to the next blank one, fences included:
+	// with both a tag-like line and a fence-like line present the reading is not attempted
+	tagLike, fenceLike := false, false
+	for _, raw := range lines {
+		core, _ := stripContainers(raw)
+		if len(core) >= 2 && core[0] == '<' && (core[1] == '/' || core[1] >= 'A' && core[1] <= 'Z' || core[1] >= 'a' && core[1] <= 'z') {
+			tagLike = true
 		}
-		if fence != "" {
-			t := strings.TrimLeft(body, " ")
-			ind := len(body) - len(t)
-			run := len(t) - len(strings.TrimLeft(t, fence[:1]))
-			if ind < fenceCol+4 && run >= len(fence) && strings.TrimSpace(t[run:]) == "" {
-				fence = ""
+		if fenceStartRe.MatchString(core) {
+			fenceLike = true
+		}
+	}
+	if tagLike && fenceLike {
+		return true
+	}
+	var cur *open
+	for _, raw := range lines {
+		if cur != nil && cur.fence != "" {
+			if strings.Contains(cur.prefix, ">") && !strings.HasPrefix(raw, cur.prefix[:strings.LastIndex(cur.prefix, ">")+1]) {
+				return true // the quote may have ended and taken the block with it: uncertain
+			}
+			if !strings.HasPrefix(raw, cur.prefix) {
+				if strings.TrimSpace(raw) != "" {
+					return true // a less indented line may have ended the container: uncertain
+				}
+				continue
+			}
+			rest := raw[len(cur.prefix):]
+			t := strings.TrimLeft(rest, " ")
+			k := len(rest) - len(t)
+			if strings.TrimSpace(rest) == "" {
+				continue
+			}
+			if k < cur.own {
+				return true // less indented than the opening line: it may sit in a container that ends here
+			}
+			run := len(t) - len(strings.TrimLeft(t, cur.fence[:1]))
+			if k <= 3 && run >= len(cur.fence) && strings.TrimSpace(t[run:]) == "" {
+				cur = nil
 			}
 			continue
 		}
-		if htmlEnd != nil {
-			if htmlEnd.MatchString(l) {
-				htmlEnd = nil
+		if cur != nil {
+			if strings.TrimSpace(raw) != "" {
+				if !strings.HasPrefix(raw, cur.prefix) {
+					return true // the container may have ended here and something else begun: uncertain
+				}
+				rest := raw[len(cur.prefix):]
+				if len(rest)-len(strings.TrimLeft(rest, " ")) < cur.own {
+					return true
+				}
+			}
+			if cur.end.MatchString(raw) {
+				cur = nil
 			}
 			continue
 		}
-		if m := fenceOpenRe.FindStringSubmatch(body); m != nil && len(m[1])-len(strings.TrimLeft(m[1], " ")) <= 3 {
-			fence, fenceCol, inQuote = m[2], len(m[1]), q
+		core, prefix, own := stripContainersOwn(raw)
+		if m := fenceStartRe.FindString(core); m != "" && !(m[0] == '`' && strings.Contains(core[len(m):], "`")) {
+			cur = &open{fence: m, prefix: prefix, own: own}
 			continue
 		}
 		for _, h := range htmlStart15 {
-			if h.start.MatchString(body) {
-				if !h.end.MatchString(body) {
-					htmlEnd, inQuote = h.end, q
+			if h.start.MatchString(core) {
+				if !h.end.MatchString(core) {
+					cur = &open{end: h.end, prefix: prefix, own: own}
 				}
 				break
 			}
 		}
 	}
-	return fence != "" || htmlEnd != nil
+	return cur != nil
 }
 
 func specRewrites(c *Ctx, m mdT, cur *string) {
@@ -801,4 +876,44 @@ func firstDiff(got, want []byte) string {
 		return fmt.Sprintf("%q", b[a:z])
 	}
 	return fmt.Sprintf("at byte %d got ...%s want ...%s", i, e(got), e(want))
+}
+
+// specDocStream feeds documents printed from random SpecDoc trees (blanks only, final newline)
+// to another property's document stream.
+func specDocStream(c *Ctx, n int, add func(string, []byte)) {
+	g := &sGen{r: c.R}
+	for i := 0; i < n; i++ {
+		add("specdoc", mdOf(false, true, g.doc(1+i%3)))
+	}
+}
+
+// nestedInlines: one paragraph of randomly nested links, images, emphasis, strong emphasis,
+// strikethrough and code spans (not constrained to have a forced reading)
+func nestedInlines(r *RNG, depth int) string {
+	if depth <= 0 || r.Intn(4) == 0 {
+		return r.PickS([]string{"a", "b c", "x", "`c`", "\\*", "<b>", "<http://u.v>", "![i](/s)", "[r]", "&amp;"})
+	}
+	in := nestedInlines(r, depth-1)
+	if r.Intn(3) == 0 {
+		in += " " + nestedInlines(r, depth-1)
+	}
+	switch r.Intn(9) {
+	case 0:
+		return "[" + in + "](/u" + itoa(depth) + ")"
+	case 1:
+		return "![" + in + "](/i" + itoa(depth) + ")"
+	case 2:
+		return "*" + in + "*"
+	case 3:
+		return "**" + in + "**"
+	case 4:
+		return "_" + in + "_"
+	case 5:
+		return "~~" + in + "~~"
+	case 6:
+		return "[" + in + "][r]"
+	case 7:
+		return "![" + in + "][r]"
+	}
+	return "[" + in + "]"
 }
